@@ -433,6 +433,7 @@ class Oracle:
         d[k] = d.get(k, 0) + n
 
     def violation(self, cls, key, rec, **detail):
+        key = key + "|" + rec["key"].split(":")[1]  # the function: a finding about one program never hides another's
         detail.update(request=rec["key"], position=rec["pos"], prior_on_context=rec["prior"][-4:], env=rec["env"], rep=rec["rep"])
         if not any(v["cls"] == cls and v["key"] == key for v in self.violations):
             self.violations.append({"cls": cls, "key": key, "detail": detail})
